@@ -142,7 +142,7 @@ def run(ctx):
     ctx.rule = RULE
     ctx.assumptions = ["recorder backend and linear-combination evaluator are correct", "Hypothesis generator (seeded)"]
     if ctx.tier == "quick":
-        shards = [dict(seed=ctx.seed * 1000 + i, n_examples=60) for i in range(16)]
+        shards = [dict(seed=ctx.seed * 1000 + i, n_examples=250) for i in range(16)]
     else:
         shards = [dict(seed=ctx.seed * 1000 + 100 + i, n_examples=4000) for i in range(16)]
     from harness import opgrid
